@@ -16,7 +16,7 @@ theorem newTypecast_shape (t : TyId) (inner c : Node) (h : ctx.newTypecast t inn
   · split at h
     · cases h; exact ⟨_, rfl⟩
     · split at h
-      · cases h
+      · cases h; exact ⟨_, rfl⟩
       · split at h <;> (cases h; exact ⟨_, rfl⟩)
   · cases h; exact ⟨_, rfl⟩
   · cases h
@@ -54,7 +54,7 @@ theorem castNode_cases (lhsT : TyId) (rhs n : Node) (w : List String)
             exact Or.inr (Or.inr ⟨newTypecast_shape ctx lhsT rhs n hnt, ht.1, ht.2⟩)
           | none =>
             simp only [hnt] at h
-            split at h <;> cases h
+            cases h
         | error e => simp only [hnt] at h; cases h
         | panic p => simp only [hnt] at h; cases h
       · simp only [ht, Bool.false_eq_true, ↓reduceIte] at h
@@ -109,10 +109,7 @@ theorem match_none_no_name_match (rec : Node → Node → Outcome (List Stmt)) (
     cases hrule : ctx.opts.rule <;> simp_all
   simp only [hg, Bool.false_eq_true, ↓reduceIte, pure, bind, Outcome.bind, hr'] at h
   unfold BCtx.noMatchAt at h
-  split at h
-  · cases h; exact ⟨_, rfl⟩
-  · cases h
-  · cases h
+  cases h; exact ⟨_, rfl⟩
 
 /-! ### witnesses: what the code does where the statement wants more
 
